@@ -78,7 +78,7 @@ def job_elastic(cfg):
     n = mesh.Nn * dim
     u, v, a = sym_array("u", n), sym_array("v", n), sym_array("a", n)
     res.symbols = 3 * n
-    key = f"elastic dim={dim} {cfg.get('mesh', 'tetra2' if dim == 3 else 'mixed')} {cfg['law']} order={cfg['order']}"
+    key = f"elastic dim={dim} {cfg.get('mesh', 'tetra2' if dim == 3 else 'mixed')} {cfg['law']} order={cfg['order']}" + (" after a parameter change" if cfg.get("change") else "")
     simu.Get_K_C_M_F()
     res.functions |= {"Elastic.Result", "Elastic.Results_Available", "_Simu.Results_Reshape_values", "Mesh.Get_Node_Values", "Elastic._Calc_Psi_Elas", "Elastic._Calc_Epsilon_e_pg",
                       "Elastic._Calc_Sigma_e_pg", "Models._utils.Result_strain_or_stress_field_e", "_Simu._Set_solutions"}
@@ -88,7 +88,23 @@ def job_elastic(cfg):
     order = cfg["order"]
     mark = c.mark()
     R = {}
+    change = cfg.get("change")
+    Enew = c.var("Enew", 50, 500) if change else None
+
+    def warm_and_change(sm, value):
+        """results are read once (every cache behind them is filled), then a parameter of the law is changed through its public setter;
+        nothing reads the law or the matrices before the results are requested again"""
+        sm._Set_solutions(pt, np.linspace(-1, 1, n), np.zeros(n), np.zeros(n))
+        for nm in ("Stress", "Svm", "Wdef_e", "Wdef"):
+            sm.Result(nm, nodeValues=False)
+        sm.material.E = value
+
+    if change:
+        warm_and_change(simu, 210.0)  # concrete first (a float law), the symbolic value afterwards
+        res.functions |= {"Utilities._params._Parameter.__set__", "_Elastic.Calc_Sigma_e_pg", "_Elastic.C (lazy update)"}
     with facade.symbolic():
+        if change:
+            simu.material.E = Enew
         simu._Set_solutions(pt, u.copy(), v.copy(), a.copy())
         # the query order is part of the configuration
         seq = {"strain-first": ["Strain"] + names_E + ["Stress"] + names_S + ["Svm", "Wdef_e"],
@@ -108,6 +124,7 @@ def job_elastic(cfg):
         Eps_g = [np.asarray(simu._Calc_Epsilon_e_pg(u, g), dtype=object) for g in mesh.Get_list_groupElem()]
         Sig_g = [np.asarray(simu._Calc_Sigma_e_pg(simu._Calc_Epsilon_e_pg(u, g), g), dtype=object) for g in mesh.Get_list_groupElem()]
         K = simu.Get_K_C_M_F()[0]
+        Cpub = np.asarray(simu.material.C, dtype=object)  # the law as the user reads it (read last)
     pcs = c.pc_since(mark)
     res.paths, res.path_conditions = 1, len(pcs)
     r2 = Fraction(float(np.sqrt(2)))
@@ -135,6 +152,9 @@ def job_elastic(cfg):
 
         uf, vf, af = farr(c, env, u), farr(c, env, v), farr(c, env, a)
         m2, s2 = build_elastic(dim, cfg.get("mesh", "mixed"), cfg["law"])
+        if change:
+            warm_and_change(s2, 210.0)
+            s2.material.E = float(as_sym(Enew).eval(fenv(c, env)))
         s2._Set_solutions(pt, uf.copy(), vf.copy(), af.copy())
         out = {}
         for name in seq:
@@ -158,6 +178,10 @@ def job_elastic(cfg):
                     d = float(np.abs(arr - Em).max())
                 elif name == "Stress":
                     d = float(np.abs(arr - Sm).max()) / smax
+                    Cf = np.asarray(s2.material.C, dtype=float)
+                    if Cf.ndim == 2:  # Stress = C : Strain with the law as the user reads it
+                        Sc = np.concatenate([np.einsum("ij,ej->ei", Cf, F.mean(1)) * sc for F in Ef])
+                        d = max(d, float(np.abs(arr - Sc).max()) / smax)
                 elif name in names_E:
                     d = float(np.abs(arr - Em[:, names_E.index(name)]).max())
                 elif name in names_S:
@@ -198,6 +222,15 @@ def job_elastic(cfg):
             cmp(res, lab, val, E_mean, pcs, replay, TOL, key=f"{key} Strain")
         elif name == "Stress":
             cmp(res, lab, val, S_mean, pcs, replay, TOL * smax, key=f"{key} Stress")
+            if Cpub.ndim == 2 and rep == 0:
+                rows = []
+                for F in Eps_g:
+                    Ne_, nPg_, nc_ = F.shape
+                    for e in range(Ne_):
+                        em = [sum(F[e, p_, k] for p_ in range(nPg_)) / nPg_ for k in range(nc_)]
+                        sg = [sum(Cpub[i_, j_] * em[j_] for j_ in range(nc_)) for i_ in range(nc_)]
+                        rows.append([sg[k] if k < dim else sg[k] / r2 for k in range(nc_)])
+                cmp(res, lab + " = C : Strain with the law as read by the user", val, np.array(rows, dtype=object), pcs, replay, TOL * smax, key=f"{key} Stress = C:Strain")
         elif name in names_E:
             cmp(res, lab, val, E_mean[:, names_E.index(name)], pcs, replay, TOL, key=f"{key} strain component")
         elif name in names_S:
@@ -410,6 +443,9 @@ def main():
     for order in ("strain-first", "stress-first", "repeat"):
         configs.append({"sim": "elastic", "dim": 2, "mesh": "mixed", "law": "aniso" if order != "repeat" else "iso_stress", "order": order})
     configs.append({"sim": "elastic", "dim": 3, "law": "trans", "order": "strain-first"})
+    # results requested right after a parameter change (nothing else has read the law since)
+    configs.append({"sim": "elastic", "dim": 2, "mesh": "mixed", "law": "iso_stress", "order": "stress-first", "change": True})
+    configs.append({"sim": "elastic", "dim": 2, "mesh": "mixed", "law": "iso_strain", "order": "strain-first", "change": True})
     if tier == "thorough":
         configs.append({"sim": "elastic", "dim": 3, "law": "iso", "order": "stress-first"})
         configs.append({"sim": "elastic", "dim": 2, "mesh": "tri6_2", "law": "ortho", "order": "repeat"})
